@@ -1009,15 +1009,15 @@ func skipTableRule(c *core.Ctx, g skipGroup) {
 var anchorTable = map[string][][2]string{
 	"C08": {{"controller/config", "CreateWithConfig"}, {"controller/config", "Options.AddFlags"}, {"controller/services", "createCacheFacade"}, {"controller/legacy", "createCache"}, {"converters/tracker", "NewTracker"}},
 	"C09": {{"controller/config", "CreateWithConfig"}, {"controller/config", "Options.AddFlags"}, {"controller/services", "createCacheFacade"}, {"controller/legacy", "createCache"}},
-	"C12": {{"controller/config", "CreateWithConfig"}, {"controller/config", "Options.AddFlags"}, {"controller/services", "Services.withManager"}, {"utils/workqueue", "+WorkQueue.Start"}, {"haproxy/socket", "+buildProcTable"}, {"haproxy/socket", "+buildProcTable24"}, {"haproxy", "CreateInstance"}, {"haproxy", "newConnections"}, {"haproxy/socket", "+tokenizer.readField"}},
-	"C14": {{"controller/reconciler", "watchers.getHandlers"}, {"controller/reconciler", "hdlr.getSource"}, {"controller/reconciler", "createWatchers"}, {"controller/reconciler", "IngressReconciler.SetupWithManager"}, {"controller/reconciler", "+hdlr.Generic"}, {"controller/reconciler", "+hdlr.Create"}, {"controller/reconciler", "+hdlr.Update"}, {"controller/reconciler", "+hdlr.Delete"}},
+	"C12": {{"controller/legacy", "HAProxyController.startServices"}, {"controller/config", "CreateWithConfig"}, {"controller/config", "Options.AddFlags"}, {"controller/services", "Services.withManager"}, {"utils/workqueue", "+WorkQueue.Start"}, {"haproxy/socket", "+buildProcTable"}, {"haproxy/socket", "+buildProcTable24"}, {"haproxy", "CreateInstance"}, {"haproxy", "newConnections"}, {"haproxy/socket", "+tokenizer.readField"}},
+	"C14": {{"controller/legacy", "+listers.RunAsync"}, {"controller/legacy", "+listers.createConfigMapLister"}, {"controller/legacy", "+listers.createEndpointLister"}, {"controller/legacy", "+listers.createEndpointSliceLister"}, {"controller/legacy", "+listers.createGatewayClassLister"}, {"controller/legacy", "+listers.createGatewayLister"}, {"controller/legacy", "+listers.createHTTPRouteLister"}, {"controller/legacy", "+listers.createIngressClassLister"}, {"controller/legacy", "+listers.createIngressLister"}, {"controller/legacy", "+listers.createPodLister"}, {"controller/legacy", "+listers.createSecretLister"}, {"controller/legacy", "+listers.createServiceLister"}, {"controller/legacy", "+k8scache.Notify"}, {"controller/legacy", "+k8scache.SwapChangedObjects"}, {"controller/legacy", "createListers"}, {"controller/legacy", "k8scache.RunAsync"}, {"controller/reconciler", "watchers.getHandlers"}, {"controller/reconciler", "hdlr.getSource"}, {"controller/reconciler", "createWatchers"}, {"controller/reconciler", "IngressReconciler.SetupWithManager"}, {"controller/reconciler", "+hdlr.Generic"}, {"controller/reconciler", "+hdlr.Create"}, {"controller/reconciler", "+hdlr.Update"}, {"controller/reconciler", "+hdlr.Delete"}},
 	"C13": {{"controller/config", "CreateWithConfig"}, {"controller/config", "Options.AddFlags"}, {"utils/workqueue", "New"}, {"controller/services", "Services.withManager"},
-		{"utils", "+queue.RunWithContext"}, {"utils", "queue.Run"}, {"utils", "queue.Start"}, {"utils", "queue.Clear"}, {"utils", "+queue.Add"}, {"utils", "+queue.AddAfter"}, {"utils", "+queue.Notify"}, {"utils", "+queue.Remove"}, {"utils", "+NewRateLimitingQueue"}, {"utils", "+NewFailureRateLimitingQueue"}, {"utils", "+NewQueue"}, {"utils/workqueue", "+WorkQueue.Start"}, {"utils/workqueue", "WorkQueue.AddAfter"}, {"utils/workqueue", "WorkQueue.Remove"}, {"controller/services", "+svcLeader.onStartedLeading"}, {"controller/services", "+svcLeader.onStoppedLeading"}, {"controller/services", "svcLeader.addRunnable"}, {"controller/services", "svcLeader.Start"}, {"utils/workqueue", "ingressReconciler.Forget"}, {"utils/workqueue", "ingressReconciler.NumRequeues"}, {"utils/workqueue", "reloadHAProxy.Forget"}, {"utils/workqueue", "reloadHAProxy.NumRequeues"}},
+		{"controller/legacy", "HAProxyController.startServices"}, {"controller/legacy", "HAProxyController.Start"}, {"utils", "+queue.RunWithContext"}, {"utils", "queue.Run"}, {"utils", "queue.Start"}, {"utils", "queue.Clear"}, {"utils", "+queue.Add"}, {"utils", "+queue.AddAfter"}, {"utils", "+queue.Notify"}, {"utils", "+queue.Remove"}, {"utils", "+NewRateLimitingQueue"}, {"utils", "+NewFailureRateLimitingQueue"}, {"utils", "+NewQueue"}, {"utils/workqueue", "+WorkQueue.Start"}, {"utils/workqueue", "WorkQueue.AddAfter"}, {"utils/workqueue", "WorkQueue.Remove"}, {"controller/services", "+svcLeader.onStartedLeading"}, {"controller/services", "+svcLeader.onStoppedLeading"}, {"controller/services", "svcLeader.addRunnable"}, {"controller/services", "svcLeader.Start"}, {"utils/workqueue", "ingressReconciler.Forget"}, {"utils/workqueue", "ingressReconciler.NumRequeues"}, {"utils/workqueue", "reloadHAProxy.Forget"}, {"utils/workqueue", "reloadHAProxy.NumRequeues"}},
 	"C17": {{"controller/config", "CreateWithConfig"}, {"controller/config", "Options.AddFlags"}, {"controller/services", "Services.withManager"}, {"utils/workqueue", "+WorkQueue.Start"}, {"utils/workqueue", "WorkQueue.AddAfter"}, {"utils/workqueue", "WorkQueue.Remove"}, {"controller/services", "+svcLeader.onStartedLeading"}, {"controller/services", "+svcLeader.onStoppedLeading"}, {"controller/services", "svcLeader.addRunnable"}, {"controller/services", "svcLeader.Start"}, {"utils/workqueue", "ExponentialFailureRateLimiter"}, {"controller/services", "+svcAcmeClient.Start"}, {"controller/services", "+Services.acmeCheck"}, {"controller/services", "initSvcAcmeClient"}, {"controller/services", "initSvcLeader"}, {"acme", "NewSigner"}, {"acme", "NewClient"}},
 	"C19": {{"controller/config", "CreateWithConfig"}, {"controller/config", "Options.AddFlags"}},
 	"C02": {{"haproxy", "CreateInstance"}, {"haproxy", "newConnections"}, {"controller/config", "CreateWithConfig"}, {"controller/config", "Options.AddFlags"}, {"controller/services", "Services.withManager"}},
 	"C05": {{"controller/config", "CreateWithConfig"}, {"controller/config", "Options.AddFlags"}, {"controller/services", "Services.withManager"}},
-	"C01": {{"controller/services", "createCacheFacade"}, {"controller/legacy", "createCache"}, {"converters/tracker", "NewTracker"}},
+	"C01": {{"controller/legacy", "HAProxyController.syncIngress"}, {"controller/services", "createCacheFacade"}, {"controller/legacy", "createCache"}, {"converters/tracker", "NewTracker"}},
 	"C15": {{"controller/services", "createCacheFacade"}, {"controller/legacy", "createCache"}, {"controller/services", "+SSL.createFakeCertAndCA"}},
 	"C03": {{"controller/config", "CreateWithConfig"}},
 	"C11": {{"controller/config", "CreateWithConfig"}, {"converters/ingress/annotations", "updater.buildBackendDynamic"}},
